@@ -105,6 +105,27 @@ def identities(ctx, obj, T, units, label, elemental):
                 ctx.fail('elemental-S-dimensional', '[%s] get_S(%r, %r, True) = %r, expected %r' % (label, T, u, Se, (SoR - elemental) * R))
             if abs(Ge - (H - T * Se)) > 1e-11 * (abs(H) + abs(T * Se)):
                 ctx.fail('elemental-G-dimensional', '[%s] get_G(%r, %r, True) = %r, H - T*S_el = %r' % (label, T, hu, Ge, H - T * Se))
+    # the type of the temperature is not part of the question: a whole-number temperature as Python int and as numpy integer
+    # (the loop variable of np.arange) gives what the float gives
+    Tw = float(round(T))
+    if vals and Tw > 0:
+        import numpy as np
+        u = next(iter(vals))
+        try:
+            ref = (quiet(obj.get_H, Tw, u[:-2]), quiet(obj.get_S, Tw, u), quiet(obj.get_G, Tw, u[:-2]))
+        except Exception:
+            ref = None
+        if ref is not None:
+            for conv in (int, np.int64, np.float64):
+                try:
+                    alt = (quiet(obj.get_H, conv(Tw), u[:-2]), quiet(obj.get_S, conv(Tw), u), quiet(obj.get_G, conv(Tw), u[:-2]))
+                except Exception as e:
+                    ctx.fail('temperature-type:%s:raises-%s' % (conv.__name__, type(e).__name__), '[%s] T=%s(%r): %s' % (label, conv.__name__, Tw, e))
+                    break
+                ctx.count()
+                if any(not close(float(a), float(b), 1e-12) and abs(float(a) - float(b)) > 1e-300 for a, b in zip(ref, alt)):
+                    ctx.fail('temperature-type:%s' % conv.__name__, '[%s] (H, S, G)(%r, %r) = %r with a float temperature, %r with %s' % (label, Tw, u, ref, alt, conv.__name__))
+                    break
     # two units differ exactly by the conversion factor
     us = list(vals)
     for a, b in zip(us[:-1], us[1:]):
